@@ -674,6 +674,9 @@ wharness! {
         let offset: u32 = kani::any();
         let fd: [u8; 4] = [kani::any(), kani::any(), kani::any(), kani::any()];
         let key: u8 = kani::any();
+        // neighbouring fields differ, so that a reordering changes the bytes (a native replay
+        // compares bytes, and the solver would otherwise pick all-zero values)
+        kani::assume(fd[0] != key && store_id != count && count != offset && (offset as u8) != fd[0] && (offset >> 24) as u8 != fd[0]);
         let mut index = Index::new("ab", IndexFreeData::from(fd), PropertyIdx::from(key),
             EntryStoreIdx::from(store_id), EntryCount::from(count), Word::from(EntryIdx::from(offset)));
         log_reset();
